@@ -88,9 +88,12 @@ class Machine:
             'cmp_q_left': 0, 'cmp_q_right': 0, 'cmp_b_left': 0, 'cmp_b_right': 0, 'cmp_nan': 0,
             'cmp_frac': 0, 'cmp_nonzero_count': 0, 'print_char': 0, 'print_num': 0, 'print_frac': 0,
             'print_nan': 0, 'nan_pops': 0, 'nan_dropped_on_empty': 0, 'multi_operand': 0,
-            'fractions_made': 0, 'negatives_made': 0, 'push_stack0': 0,
+            'fractions_made': 0, 'negatives_made': 0, 'push_stack0': 0, 'heart_after_heart': 0, 'jump_back_over_first_read': 0,
         }
         self.cmp_log = None   # optional list of (value, count, op, went_left)
+        self.last_jump_was_heart = False
+        self.first_read_loc = None
+        self.cur_loc = 0
 
     # -- state helpers -------------------------------------------------------------------------
     def clone(self):
@@ -109,6 +112,9 @@ class Machine:
         m.steps = self.steps
         m.st = dict(self.st)
         m.cmp_log = None
+        m.last_jump_was_heart = self.last_jump_was_heart
+        m.first_read_loc = self.first_read_loc
+        m.cur_loc = self.cur_loc
         return m
 
     def nonempty_stacks(self):
@@ -175,6 +181,8 @@ class Machine:
         s = self.st_(i)
         if i == 0 and not s:
             self.st['stdin_reads'] += 1
+            if self.first_read_loc is None:
+                self.first_read_loc = self.cur_loc
             if self.li < len(self.lines):
                 line = self.lines[self.li]
                 self.li += 1
@@ -214,6 +222,7 @@ class Machine:
     def step(self, loc):
         t, h, d, a = self.prog[loc]
         cur = self.cur
+        self.cur_loc = loc
         if t == 0:
             self.push(cur, Fraction(h * d))
         elif t == 1 or t == 2:
@@ -265,10 +274,16 @@ class Machine:
                 elif tgt != loc:
                     self.latest = loc
                     self.st['jumps'] += 1
+                    self.last_jump_was_heart = False
+                    if self.first_read_loc is not None and tgt < self.first_read_loc:
+                        self.st['jump_back_over_first_read'] += 1
                     return tgt
             elif self.latest is not None:
                 self.st['heart_returns'] += 1
                 self.st['jumps'] += 1
+                if self.last_jump_was_heart:
+                    self.st['heart_after_heart'] += 1
+                self.last_jump_was_heart = True
                 return self.latest
         return loc + 1
 
